@@ -216,6 +216,50 @@ def run(ctx):
             ctx.report('correspondence', f'model Registry.guess = {mres}, implementation chose {got} (per-class answers {specs})',
                        case, found_input=False)
 
+    # ---------------- (A3) the accessor and the detection function agree, also on datasets derived from one that was opened
+    # from a file and already given a convention (xarray keeps encoding['source'] on the derived datasets)
+    import os
+    import shutil
+    import tempfile
+    tmp3 = tempfile.mkdtemp(prefix='c11_file_', dir=os.environ.get('VERIF_WORK', '/verif/work'))
+    try:
+        for n in range(5 if quick else 20):
+            d = gen.any_dataset(rng, gen.FAMILIES[n % len(gen.FAMILIES)])
+            path = os.path.join(tmp3, f'a{n}.nc')
+            enc = {v: {'_FillValue': None} for v in d.ds.variables if d.ds[v].dtype.kind == 'f' and '_FillValue' not in d.ds[v].attrs}
+            with warnings.catch_warnings():
+                warnings.simplefilter('ignore')
+                try:
+                    d.ds.to_netcdf(path, encoding=enc)
+                    opened = xarray.open_dataset(path)
+                    opened.load()
+                    first = type(opened.ems)
+                except Exception:       # noqa: BLE001
+                    continue
+            d_file = gen.DS(d.family, opened, d.spec)
+            for label, ds in near_misses(rng, d_file):
+                case = {'dataset': d.spec['label'], 'variant': label, 'kind': 'derived from a dataset opened from a file and already bound',
+                        'bound first': first.__name__}
+                ctx.case((d.spec['label'], 'from_file', label), True)
+                ctx.count('from_file_then_derived')
+                with warnings.catch_warnings():
+                    warnings.simplefilter('ignore')
+                    fresh = ds.copy()
+                    want = attempt(get_dataset_convention, fresh)
+                    acc = attempt(lambda: type(fresh.ems))
+                if want[0] != 'ok':
+                    continue
+                if want[1] is None:
+                    if acc[0] == 'ok':
+                        ctx.report('property', f'nothing matches this dataset (get_dataset_convention gives None) but dataset.ems binds '
+                                   f'{acc[1].__name__}', case)
+                elif acc[0] != 'ok' or acc[1] is not want[1]:
+                    ctx.report('property', f'dataset.ems binds {acc[1].__name__ if acc[0] == "ok" else acc[1]}, get_dataset_convention '
+                               f'gives {want[1].__name__}', case)
+            opened.close()
+    finally:
+        shutil.rmtree(tmp3, ignore_errors=True)
+
     # ---------------- (A2) conventions derived from the built-in ones: what a class matches depends on the dataset's content
     # and the class's own declaration only - not on which related class was registered or consulted first
     from emsarray.conventions.arakawa_c import ArakawaC, ArakawaCGridKind
